@@ -381,3 +381,7 @@ pub(crate) mod parser {
         Ok((rest, result))
     }
 }
+
+#[cfg(kani)]
+#[path = "/verif/kani/sel_compound.rs"]
+pub(super) mod kani_verif;
